@@ -13,7 +13,20 @@ Init == i = 0
 Next == \/ i = 0 /\ i' \in {0 - b : b \in 1..Buckets}
         \/ i < 0 /\ i' \in {k \in 1..N : k % Buckets = (0 - i) - 1}
 
+Opt(x) == IF Len(x) = 0 THEN << >> ELSE <<x[1]>>
 Verdict(r) ==
+  IF r.fn = "builder" THEN
+    LET want == Built(NewClaims(<<r.now[1], r.now[2]>>, r.k), r.setters)
+        got == [exp |-> Opt(r.got.exp), nbf |-> Opt(r.got.nbf), iat |-> Opt(r.got.iat), iss |-> Opt(r.got.iss),
+                sub |-> Opt(r.got.sub), aud |-> Opt(r.got.aud), jti |-> Opt(r.got.jti)]
+    IN IF got # want THEN "builder-produced-other-claims"
+       ELSE IF r.valid_at # BuiltValidAt(<<r.now[1], r.now[2]>>, r.k, <<r.t[1], r.t[2]>>) THEN "fresh-claims-validity-window-wrong"
+       ELSE "ok"
+  ELSE IF r.fn = "clock" THEN
+    \* valid_now() / now(d) read the system clock: claims an hour either side of it are judged accordingly
+    (IF r.future_exp_accepted /\ ~r.past_exp_accepted /\ r.past_nbf_accepted /\ ~r.future_nbf_accepted /\ r.now_claims_valid_now THEN "ok"
+     ELSE "system-clock-validators-inconsistent")
+  ELSE
   LET want == AcceptsTop(r.expr, <<r.x, r.y>>) IN
   CASE r.fn = "accepts" ->
          IF r.got # want THEN (IF r.got THEN "accepted-but-must-reject" ELSE "rejected-but-must-accept")
